@@ -69,7 +69,7 @@ def histories_from_tlc(ctx, tier, want, rng):
     if r.error or r.violation:
         raise vf.Infra("Link_mc gen (C02): " + str(r.error or r.violation))
     ctx.add_tlc(r, "gen Link_mc/Link_gen_c02_%s.cfg" % tier)
-    hs = [p for p in r.prints if p.startswith('"HIST ')]
+    hs = sorted(p for p in r.prints if p.startswith('"HIST '))       # TLC's print order changes from run to run (R4)
     if not hs:
         raise vf.Infra("Link_mc gen emitted no history")
     ctx.notes["histories_enumerated"] = len(hs)
@@ -154,6 +154,24 @@ def scripts(ctx, tier):
         for _ in range(300):
             lines.append("E %d %d %d %d" % (fr, rng.randrange(12, 34), rng.choice([1, 1, 6, 4]), rng.randrange(3)))
         ex.append(lines)
+    # 3d. DTX: loud audio, then long digital silence (DTX packets and the refresh packets between them), then audio
+    #     again - both detectors (activity analysis: complexity >= 7 and Fs >= 16 kHz; speech layer otherwise)
+    for k in range(14 if tier == "quick" else 140):
+        gen = k % 2 == 0
+        fs = rng.choice([16000, 24000, 48000]) if gen else rng.choice(FS)
+        ch = rng.choice([1, 2])
+        app = rng.choice([2048, 2049]) if gen else 2048
+        lines = ["N enc %d %d %d %d | %s" % (fs, ch, app, rng.randrange(1, 1 << 30), decoders(rng, fs, ch, "quick", k))]
+        lines += ["S 4016 1", "S 4010 %d" % (rng.choice([7, 8, 10]) if gen else rng.choice([0, 3, 5, 6])),
+                  "S 4002 %d" % rng.choice([16000, 24000, 32000, 64000, -1000]), "S 4006 %d" % rng.choice([0, 1, 1])]
+        if rng.random() < 0.3:
+            lines.append("S 4012 1")
+        u = rng.choice([4, 8, 8, 8, 16, 24, 48]) if k % 7 else rng.choice([1, 2])
+        fr = u * (fs // 400)
+        def seg(ms, sig):
+            return ["E %d 1500 %d %d" % (fr, sig, rng.randrange(3)) for _ in range(max(1, int(ms / (2.5 * u))))]
+        lines += seg(500, 1) + seg(rng.choice([700, 1100, 1700]), 0) + seg(200, 1) + seg(rng.choice([450, 900]), 0) + seg(100, 6)
+        ex.append(lines)
     # 4. invalid and borderline arguments
     for k in range(6 if tier == "quick" else 40):
         fs, hd = header(rng, tier, k)
@@ -185,6 +203,27 @@ def scripts(ctx, tier):
             mb = rng.choice([4 * S, 4 * S + 3, 8 * S, 20 * S, 40 * S, 1500, 4000, 6000, rng.randrange(1, 4 * S + 1)])
             for _ in range(rng.choice([1, 2])):
                 lines.append("E %d %d %d %d" % (fr, mb, rng.choice([0, 1, 1, 6, 6, 4, 3, 5]), rng.randrange(3)))
+        ms.append(lines)
+    # 5b. DTX on multistream objects, and a one-by-one sweep of the buffer size at the maximum bitrate with loud input
+    #     (every stream fills what it is given: the length prefixes of the non-final streams sit at their 1/2-byte limit)
+    for k in range(4 if tier == "quick" else 24):
+        t, nch, fam = [("surr", 2, 255), ("surr", 6, 1), ("surr", 3, 1), ("penc", 4, 3)][k % 4]
+        fs = rng.choice([16000, 48000])
+        lines = ["N %s %d %d %d %d %d | %d %d" % (t, fs, nch, fam, 2049, rng.randrange(1, 1 << 30), fs, rng.randrange(3))]
+        lines += ["S 4016 1", "S 4010 %d" % rng.choice([8, 10]), "S 4002 %d" % (24000 * nch)]
+        fr = 8 * (fs // 400)
+        for (n, sig) in ((25, 1), (60, 0), (8, 6), (30, 0), (4, 1)):
+            lines += ["E %d 4000 %d %d" % (fr, sig, rng.randrange(3)) for _ in range(n)]
+        ms.append(lines)
+    sweeps = [("surr", 2, 255, 2), ("surr", 3, 1, 2), ("surr", 6, 1, 4), ("penc", 4, 3, 2)]
+    for k in range(4 if tier == "quick" else 16):
+        t, nch, fam, S = sweeps[k % 4]
+        fs = 48000 if k < 4 else rng.choice([24000, 48000])
+        lines = ["N %s %d %d %d %d %d | %d %d" % (t, fs, nch, fam, 2049, rng.randrange(1, 1 << 30), fs, rng.randrange(3))]
+        lines += ["S 4002 %d" % (-1 if k < 8 else 256000 * nch), "S 4006 %d" % (1 if k % 8 < 4 else 0), "S 4010 %d" % rng.choice([0, 2, 5])]
+        fr = (8 if k < 8 else rng.choice([4, 8, 16])) * (fs // 400)
+        for mb in range(4 * S, 601 if tier == "thorough" or k < 2 else 301):
+            lines.append("E %d %d %d %d" % (fr, mb, rng.choice([4, 4, 3]), rng.randrange(3)))
         ms.append(lines)
     return ex, ms
 
@@ -261,7 +300,7 @@ def cut_after_exec(trace, x, outp):
     return n
 
 
-NEV = dict(redundancy_frames_bound=0, drift=0, events=0, encodes=0, packets=0, decodes=0, executions=0, refused=0, ms_packets=0, one_byte_100ms=0, toc_only=0, nan_inputs=0)
+NEV = dict(dtx_packets=0, redundancy_frames_bound=0, drift=0, events=0, encodes=0, packets=0, decodes=0, executions=0, refused=0, ms_packets=0, one_byte_100ms=0, toc_only=0, nan_inputs=0)
 
 
 def count_events(ctx, out):
@@ -282,6 +321,8 @@ def count_events(ctx, out):
                         NEV["ms_packets"] += 1
                     if e["r"] <= 2:
                         NEV["toc_only"] += 1
+                        if e["dtx"] == 1 and e["br"] >= 6000:
+                            NEV["dtx_packets"] += 1
                     ctx.nontrivial.add(hash((cfg.get("t"), cfg.get("Fs"), cfg.get("ch"), cfg.get("app"), e["dur"], e["vbr"], e["br"], e["dtx"], e["fec"],
                                              e["fs"], e["mb"], e["sig"], e["api"], e["h"][0], e["r"])))
                     if len(ctx.samples) < 3 and e["r"] > 3 and e["i"] > 2:
@@ -416,6 +457,8 @@ def run(ctx):
     ctx.traces = NEV["executions"]
     ctx.evaluations = NEV["encodes"] + NEV["decodes"]
     ctx.notes["events"] = dict(NEV)
+    if NEV["dtx_packets"] < 20:
+        raise vf.Infra("vacuous replay: only %d DTX packets were produced" % NEV["dtx_packets"])
     if NEV["redundancy_frames_bound"] == 0:
         raise vf.Infra("vacuous binding: no redundancy frame was observed through the decoder hook")
     if NEV["packets"] == 0 or NEV["ms_packets"] == 0 or NEV["one_byte_100ms"] == 0 or NEV["toc_only"] == 0 or NEV["nan_inputs"] == 0:
